@@ -15,14 +15,18 @@ import (
 	"os/exec"
 	"runtime"
 	"runtime/debug"
+	"sort"
 	"strings"
 	"time"
 
 	"github.com/go-logr/logr"
+	"go.minekube.com/brigodier"
 
 	"go.minekube.com/gate/pkg/edition/java/proto/codec"
+	gbrig "go.minekube.com/gate/pkg/edition/java/proto/packet/brigadier"
 	"go.minekube.com/gate/pkg/edition/java/proto/state"
 	"go.minekube.com/gate/pkg/edition/java/proto/util"
+	"go.minekube.com/gate/pkg/edition/java/proto/version"
 	"go.minekube.com/gate/pkg/gate/proto"
 
 	"verifharness/lib"
@@ -266,6 +270,77 @@ func compressedFrame(claimed int, real []byte) []byte {
 	return fr.Bytes()
 }
 
+// parserNodeBodies: for EVERY registered argument property codec one AvailableCommands body
+// [root -> one executable argument node "a" using that parser], built at the wire level; parsers with properties get
+// them from brigadier.Encode of a representative type, the CrossStitch mod argument is written by hand in both id forms
+func parserNodeBodies(p proto.Protocol) map[string][]byte {
+	reps := map[string]brigodier.ArgumentType{
+		"brigadier:bool": brigodier.Bool, "brigadier:float": &brigodier.Float32ArgumentType{Min: -1, Max: 5},
+		"brigadier:double": &brigodier.Float64ArgumentType{Min: -1, Max: 5}, "brigadier:integer": &brigodier.Int32ArgumentType{Min: -3, Max: 9},
+		"brigadier:long": &brigodier.Int64ArgumentType{Min: -3, Max: 9}, "brigadier:string": brigodier.StringPhrase,
+		"minecraft:entity": gbrig.PlayerArgument, "minecraft:resource_or_tag": &gbrig.RegistryKeyArgumentType{Identifier: "minecraft:biome"},
+		"minecraft:resource":            &gbrig.RegistryKeyArgumentType{Identifier: "minecraft:biome"},
+		"minecraft:resource_or_tag_key": &gbrig.ResourceOrTagKeyArgumentType{Identifier: "minecraft:biome"},
+		"minecraft:resource_key":        &gbrig.ResourceKeyArgumentType{Identifier: "minecraft:biome"},
+		"minecraft:resource_selector":   &gbrig.ResourceSelectorArgumentType{Identifier: "minecraft:biome"},
+	}
+	out := map[string][]byte{}
+	for _, id := range gbrig.VerifArgumentIDs() {
+		var idw bytes.Buffer
+		if p.GreaterEqual(version.Minecraft_1_19) {
+			n, ok := gbrig.VerifArgumentWireID(id, p)
+			if !ok || (n < 0 && id != "crossstitch:mod_argument") {
+				continue // not defined at this protocol
+			}
+			idw.Write(varint(n))
+		} else {
+			_ = util.WriteString(&idw, id)
+		}
+		var arg bytes.Buffer // identifier + properties
+		switch {
+		case id == "crossstitch:mod_argument":
+			arg.Write(idw.Bytes())
+			if p.GreaterEqual(version.Minecraft_1_19) {
+				arg.Write(varint(7)) // wrapped type id
+			} else {
+				_ = util.WriteString(&arg, "mymod:custom_arg")
+			}
+			_ = util.WriteBytes(&arg, []byte{1, 2, 3, 4, 5})
+		case reps[id] != nil:
+			if err := gbrig.Encode(&arg, reps[id], p); err != nil {
+				arg.Reset()
+				arg.Write(idw.Bytes())
+			}
+		default:
+			arg.Write(idw.Bytes())
+		}
+		var b bytes.Buffer
+		b.Write(varint(2))
+		b.Write([]byte{0x00, 0x01, 0x01}) // root: flags, 1 child: node 1
+		b.Write([]byte{0x06, 0x00})       // argument | executable, no children
+		_ = util.WriteString(&b, "a")
+		b.Write(arg.Bytes())
+		b.Write(varint(0)) // root index
+		out[id] = b.Bytes()
+	}
+	return out
+}
+
+// everyVarIntMutation: every offset at which a VarInt can be read, replaced by -1 / 2^26 / 2^31-1 / remaining+1
+func everyVarIntMutation(body []byte, from int) [][]byte {
+	var out [][]byte
+	for i := from; i < len(body); i++ {
+		_, n, err := util.ReadVarIntReturnN(bytes.NewReader(body[i:]))
+		if err != nil || n == 0 {
+			continue
+		}
+		for _, v := range []int{-1, 1 << 26, 1<<31 - 1, len(body) - i - n + 1} {
+			out = append(out, append(append(append([]byte{}, body[:i]...), varint(v)...), body[i+n:]...))
+		}
+	}
+	return out
+}
+
 func runChildren(self string, jobs []job, dir string, patience time.Duration) ([]result, []map[string]any) {
 	jobsPath := dir + "/c05_jobs.json"
 	outPath := dir + "/c05_results.txt"
@@ -413,6 +488,7 @@ func main() {
 	if f.Tier != "quick" {
 		nMut, nRand = 10, 4
 	}
+	parsersExercised := map[string]bool{}
 	var jobs []job
 	add := func(r pktgen.Reg, kind string, body []byte) {
 		jobs = append(jobs, job{State: r.StateName, Dir: int(r.Dir), Proto: int(r.Proto), ID: int(r.ID), Body: hex.EncodeToString(body), Kind: kind, Type: r.Type.String()})
@@ -469,6 +545,27 @@ func main() {
 			bodies := commandBodies(cr, n)
 			for _, nm := range names {
 				add(r, "brigadier-"+nm, bodies[nm])
+			}
+			// every registered brigadier parser (argument property codec): a valid node and all its length-field mutations
+			// (at the oldest and newest protocol of the packet in the quick tier; the string-id form is used below 1.19)
+			if f.Tier != "quick" || r.Proto == hiProto || r.Proto == lo[sdt{r.StateName, r.Dir, tn}] || r.Proto == version.Minecraft_1_18_2.Protocol {
+				pb := parserNodeBodies(r.Proto)
+				var ids []string
+				for id := range pb {
+					ids = append(ids, id)
+				}
+				sort.Strings(ids)
+				for _, id := range ids {
+					parsersExercised[id] = true
+					add(r, "brigadier-parser="+id, pb[id])
+					muts := everyVarIntMutation(pb[id], 6) // from the parser id on (the node prefix is covered by the generic mutations)
+					if len(pb[id]) <= 12 && f.Tier == "quick" && len(muts) > 4 {
+						muts = muts[:4] // parsers without properties: the id itself
+					}
+					for _, m := range muts {
+						add(r, "brigadier-parser-mutated="+id, m)
+					}
+				}
 			}
 			if f.Tier == "thorough" && r.Proto == hiProto {
 				// recorded finding C05-2 (quadratic graph resolution): one body of 160000 nodes, about 1.1 MB
@@ -570,6 +667,8 @@ func main() {
 		}
 	}
 	out.Extra("fragment_coverage", map[string]any{"registered_types": len(names), "fragment_types": nFrag})
+	out.Extra("brigadier_parser_types_exercised", len(parsersExercised))
+	out.Extra("brigadier_parser_types_registered", len(gbrig.VerifArgumentIDs()))
 	out.Extra("payloads_decoded", len(results))
 	out.Extra("child_crashes_or_hangs", len(goViol))
 	out.Extra("slowest_decode", map[string]any{"millis": maxMs, "case": slowest})
